@@ -501,7 +501,7 @@ func (r *cwRig) do(a Step) []string {
 			r.onWriteGate = make(chan struct{})
 			gate = r.onWriteGate
 			r.mu.Unlock()
-		case "blocked":
+		case "blocked", "blocked-deadline":
 			r.link.C.BlockWrites()
 		}
 		go func() {
@@ -535,6 +535,14 @@ func (r *cwRig) do(a Step) []string {
 			synctest.Wait()
 			r.link.C.UnblockWrites()
 			return []string{"ANewStream false", fmt.Sprintf("ACancel %d", c)}
+		case "blocked-deadline":
+			// NewStream is parked in the opener's Write (back-pressure) when the caller's deadline passes; then released
+			synctest.Wait()
+			time.Sleep(time.Duration(a.D)*time.Millisecond + time.Millisecond)
+			r.expired[c] = true
+			synctest.Wait()
+			r.link.C.UnblockWrites()
+			return []string{"ANewStream false", fmt.Sprintf("AExpire %d", c)}
 		}
 		return []string{"ANewStream false"}
 	case "recv":
@@ -699,6 +707,10 @@ func (r *cwRig) do(a Step) []string {
 		if a.B == 0 {
 			r.link.C.UnblockWrites()
 		}
+		if a.D > 0 && a.D < 30000 && a.B == 0 {
+			// released BEFORE the Write's 30 s bound: the reset is written after all: for the model a plain cancellation
+			return []string{fmt.Sprintf("ACancel %d", a.C)}
+		}
 		// (the generators follow this step with "wfail 0": the model's transport accepts Writes again)
 		return []string{"ASetWriteFail true", fmt.Sprintf("ACancel %d", a.C)}
 	case "holdloop":
@@ -825,7 +837,14 @@ func (r *cwRig) do(a Step) []string {
 		}
 		e := a.Env.build(id, method)
 		r.link.C.Deliver(e)
-		return []string{"ADeliver " + envCoqOfRpc(e)}
+		acts := []string{"ADeliver " + envCoqOfRpc(e)}
+		// B > 1: a burst: B copies handed to the client's transport back to back, without yielding in between
+		for i := int64(1); i < a.B; i++ {
+			e2 := clone(e)
+			r.link.C.Deliver(e2)
+			acts = append(acts, "ADeliver "+envCoqOfRpc(e2))
+		}
+		return acts
 	case "cli":
 		// scripted client envelope for the server: Call = scripted call index (id = 100 + index)
 		id := uint64(100 + a.Env.Call)
